@@ -1,4 +1,5 @@
 #include "lab.h"
+#include <execinfo.h>
 
 #include "upipe/uverif.h"
 #include "upipe/umem.h"
@@ -55,7 +56,8 @@ struct ev *lab_ev(int kind, int a, int b, uint64_t c, uint64_t d, const void *p,
 
 /* ---------------- pool tracker ---------------- */
 #define PT_SIZE 4096
-static struct { void *obj; void *pool; int state; } pt[PT_SIZE];  /* state 1 live, 2 parked */
+static struct { void *obj; void *pool; int state; void *bt[10]; int nbt; } pt[PT_SIZE];  /* state 1 live, 2 parked */
+static int pt_trace = -1;       /* LAB_TRACE_POOL=1: remember who obtained each object (debugging aid) */
 static long pt_live;
 int pooltrack_violations;
 char pooltrack_msg[160];
@@ -82,9 +84,10 @@ static void pt_remove(int i)
     int j = (i + 1) & (PT_SIZE - 1);
     while (pt[j].obj) {
         void *o = pt[j].obj; void *p = pt[j].pool; int s = pt[j].state;
+        void *bt[10]; int nbt = pt[j].nbt; memcpy(bt, pt[j].bt, sizeof(bt));
         pt[j].obj = NULL;
         int k = pt_find(o, true);
-        pt[k].pool = p; pt[k].state = s;
+        pt[k].pool = p; pt[k].state = s; pt[k].nbt = nbt; memcpy(pt[k].bt, bt, sizeof(bt));
         j = (j + 1) & (PT_SIZE - 1);
     }
 }
@@ -121,7 +124,7 @@ static void pool_hook(int event, void *pool, void *obj)
     switch (event) {
         case UVERIF_POOL_NEW:
             i = pt_find(obj, true);
-            if (i >= 0) { pt[i].pool = pool; pt[i].state = 1; }
+            if (i >= 0) { pt[i].pool = pool; pt[i].state = 1; if (pt_trace > 0) pt[i].nbt = backtrace(pt[i].bt, 10); }
             pt_live++;
             break;
         case UVERIF_POOL_GET:
@@ -131,6 +134,7 @@ static void pool_hook(int event, void *pool, void *obj)
                 if (pt[i].state == 1 && !pooltrack_violations++)
                     snprintf(pooltrack_msg, sizeof(pooltrack_msg), "pool handed out an object that is still held");
                 pt[i].pool = pool; pt[i].state = 1;
+                if (pt_trace > 0) pt[i].nbt = backtrace(pt[i].bt, 10);
             }
             pt_live++;
             break;
@@ -151,7 +155,16 @@ static void pool_hook(int event, void *pool, void *obj)
     }
 }
 
-void pooltrack_install(void) { uverif_pool_hook = pool_hook; }
+void pooltrack_install(void) { uverif_pool_hook = pool_hook; pt_trace = getenv("LAB_TRACE_POOL") != NULL; }
+void pooltrack_dump_live(void)
+{
+    if (pt_trace <= 0) return;
+    for (int i = 0; i < PT_SIZE; i++)
+        if (pt[i].obj && pt[i].state == 1) {
+            fprintf(stderr, "still held: object %p of pool %p obtained at:\n", pt[i].obj, pt[i].pool);
+            backtrace_symbols_fd(pt[i].bt, pt[i].nbt, 2);
+        }
+}
 void pooltrack_reset(void) { memset(pt, 0, sizeof(pt)); pt_live = 0; pooltrack_violations = 0; pooltrack_msg[0] = 0; }
 long pooltrack_live(void) { return pt_live; }
 
@@ -222,6 +235,8 @@ static int rprobe_throw(struct uprobe *uprobe, struct upipe *upipe, int event, v
             va_list a2; va_copy(a2, *ulog->args);
             vsnprintf(tmp, sizeof(tmp), ulog->format, a2);
             va_end(a2);
+            /* lines of a dictionary dump: one key whatever the attribute */
+            if (!strncmp(tmp, " - \"", 4)) snprintf(tmp, sizeof(tmp), "(attribute line of a dictionary dump)");
             normalise(msg, sizeof(msg), tmp);
         }
     }
